@@ -15,8 +15,8 @@ REPO = os.environ.get("FLOWDYN_REPO", "/repo")
 TLA_CP = "/opt/veriftools/tla/tla2tools.jar:/opt/veriftools/tla/CommunityModules-deps.jar"
 
 TOL_ROUNDOFF = 2 ** 22      # ulps (of 2^-52 * scale)  ~ 1e-9 relative
-TOL_SOLVER = 2 ** 32        # ~ 1e-6 relative
-ULP_CAP = 10 ** 9
+TOL_SOLVER = 2 ** 30        # ~ 2.4e-7 relative (fits TLC 32-bit ints)
+ULP_CAP = 2 ** 31 - 1
 
 
 class MachineryError(Exception):
@@ -204,6 +204,20 @@ def tlc_must_pass(res, what):
         tail = "\n".join(res.stdout.splitlines()[-40:])
         raise MachineryError("%s: TLC did not pass (rc=%s violated=%s)\n%s" % (what, res.rc, res.violated, tail))
     return res
+
+
+def judge(module, recs, wd, name=None, timeout=3000, heap="6g"):
+    """run a Judge_* module over records (each with an integer 'id'); returns (list of {id, clause}, TLCResult)"""
+    name = name or module
+    jin, jout = os.path.join(wd, name + "_in.ndjson"), os.path.join(wd, name + "_out.ndjson")
+    write_ndjson(jin, recs)
+    if os.path.exists(jout):
+        os.remove(jout)
+    res = tlc(module, module + ".cfg", workers=1, env={"JUDGE_IN": jin, "JUDGE_OUT": jout}, timeout=timeout, heap=heap)
+    if not (res.rc == 0 and "JUDGED" in res.stdout):
+        raise MachineryError(module + " failed:\n" + "\n".join(res.stdout.splitlines()[-30:]))
+    bad = read_ndjson(jout) if os.path.exists(jout) else []
+    return bad, res
 
 
 def sany(module):
